@@ -56,6 +56,23 @@ Theorem c10_refines_automaton :
 Proof. exact refines_automaton. Qed.
 Print Assumptions c10_refines_automaton.
 
+(* outside the zero-length-result delay (known finding C10-zero-length-result)
+   the refinement is exact: abstract state and effects coincide *)
+Theorem c10_refines_automaton_strict :
+  forall h maxdig s stream, wf s -> stable s -> lagging_b s = false ->
+  lagging_b (fst (feed h maxdig s stream)) = false ->
+  (abs (fst (feed h maxdig s stream)), snd (feed h maxdig s stream)) = proto_ref h maxdig (abs s) stream.
+Proof. exact refines_automaton_strict. Qed.
+Print Assumptions c10_refines_automaton_strict.
+
+(* and inside it the unqualified statement is false of the code as it is:
+   after "RESULT 0\n" the listener is still BUSY, the automaton is ACKNOWLEDGED *)
+Theorem c10_zero_length_lag_refuted :
+  exists s stream, wf s /\ stable s /\ lagging_b s = false /\
+    abs (fst (feed default_handler 0 s stream)) <> fst (proto_ref default_handler 0 (abs s) stream).
+Proof. exact zero_length_lag_refuted. Qed.
+Print Assumptions c10_zero_length_lag_refuted.
+
 (* UNKNOWN: the data is discarded, the state is kept, nothing is emitted *)
 Theorem c10_unknown_absorbing :
   forall h maxdig s a, l_state s = UNKNOWN ->
